@@ -413,14 +413,19 @@ fn once_case(which: u8) {
                 sym("c", asm::AstSymbolKind::Constant(asm::AstSymbolConstant { expr: once_lit() }), c0),
             ], &[1, 2])
         }
-        _ => {
-            defs.instructions.define(util::ItemRef::new(0), asm::Instruction { item_ref: util::ItemRef::new(0), matches: asm::InstructionMatches::new(), encoding_statically_known: false, encoding: BigInt::new(0, Some(8)), resolved: false });
+        3 => {
             defs.data_elems.define(util::ItemRef::new(0), asm::DataElement { item_ref: util::ItemRef::new(0), position_within_bank: None, encoding_statically_known: false, encoding: BigInt::new(0, Some(8)), resolved: false });
             defs.data_elems.define(util::ItemRef::new(1), asm::DataElement { item_ref: util::ItemRef::new(1), position_within_bank: None, encoding_statically_known: false, encoding: BigInt::new(0, Some(8)), resolved: false });
             (vec![
-                asm::AstAny::Instruction(asm::AstInstruction { span: sp(), src: String::from("i"), item_ref: Some(util::ItemRef::new(0)) }),
                 asm::AstAny::DirectiveData(asm::AstDirectiveData { header_span: sp(), elem_size: None, elems: vec![once_lit(), once_lit()], item_refs: vec![util::ItemRef::new(0), util::ItemRef::new(1)] }),
-            ], &[3, 4, 4])
+            ], &[4, 4])
+        }
+        _ => {
+            defs.instructions.define(util::ItemRef::new(0), asm::Instruction { item_ref: util::ItemRef::new(0), matches: asm::InstructionMatches::new(), encoding_statically_known: false, encoding: BigInt::new(0, Some(8)), resolved: false });
+            (vec![
+                asm::AstAny::Instruction(asm::AstInstruction { span: sp(), src: String::new(), item_ref: Some(util::ItemRef::new(0)) }),
+                asm::AstAny::DirectiveAssert(asm::AstDirectiveAssert { header_span: sp(), condition_expr: once_lit() }),
+            ], &[3, 8])
         }
     };
     let ast = asm::AstTopLevel { nodes };
@@ -431,4 +436,5 @@ fn once_case(which: u8) {
 once_harness! { #[kani::unwind(3)] fn c02_c_once_assert_res() { once_case(0) } }
 once_harness! { #[kani::unwind(3)] fn c02_c_once_align_addr() { once_case(1) } }
 once_harness! { #[kani::unwind(3)] fn c02_c_once_label_constant() { once_case(2) } }
-once_harness! { #[kani::unwind(3)] fn c02_c_once_instr_data() { once_case(3) } }
+once_harness! { #[kani::unwind(3)] fn c02_c_once_data2() { once_case(3) } }
+once_harness! { #[kani::unwind(3)] fn c02_c_once_instr_assert() { once_case(4) } }
